@@ -261,7 +261,7 @@ func DefCallerMethod(qualifier string, caller slip.Caller, fd *slip.FuncDoc) *sl
 	}
 	var key []byte
 	for i, da := range fd.Args {
-		if da.Name[0] == '&' {
+		if 0 < len(da.Name) && da.Name[0] == '&' {
 			break
 		}
 		if 0 < i {
